@@ -82,6 +82,7 @@ class SoulSeekClient:
         self.server_manager: ServerManager = self.create_server_manager()
 
         self.services: list[BaseManager] = [
+            self.distributed_network,
             self.users,
             self.rooms,
             self.interests,
